@@ -503,3 +503,68 @@ Qed.
 
 Theorem cmp_trans x y z : cmp x y = Lt -> cmp y z = Lt -> cmp x z = Lt.
 Proof. apply bytes_cmp_lt_trans. Qed.
+
+(* ------------------------------------------------------------------ 6. what the order means *)
+(* Rust documents `str`'s Ord as "lexicographic by byte values; this orders Unicode code points
+   based on their positions in the code charts".  Both halves are the same order: comparing the
+   UTF-8 bytes lexicographically = comparing the sequences of scalar values lexicographically. *)
+Local Ltac dlia := Z.div_mod_to_equations; lia.
+
+Lemma bytes_cmp_app_same p x y : bytes_cmp (p ++ x) (p ++ y) = bytes_cmp x y.
+Proof. induction p as [|a p IH]; cbn [app bytes_cmp]; [reflexivity|]. now rewrite Z.compare_refl. Qed.
+
+Lemma encode_scalar_nonempty c : exists b r, encode_scalar c = b :: r.
+Proof.
+  unfold encode_scalar. destruct (c <? 128); [eauto|]. destruct (c <? 2048); [eauto|].
+  destruct (c <? 65536); eauto.
+Qed.
+
+Local Ltac cmp_step :=
+  cbn [app bytes_cmp];
+  match goal with
+  | |- context [Z.compare ?a ?b] =>
+      destruct (Z.compare_spec a b); [ try (exfalso; dlia) | reflexivity | exfalso; dlia ]
+  end.
+
+Lemma encode_scalar_lt c d x y : scalar c = true -> scalar d = true -> c < d ->
+  bytes_cmp (encode_scalar c ++ x) (encode_scalar d ++ y) = Lt.
+Proof.
+  intros Hc Hd Hlt. apply scalar_true in Hc. apply scalar_true in Hd. unfold encode_scalar.
+  destruct (Z.ltb_spec c 128); [|destruct (Z.ltb_spec c 2048); [|destruct (Z.ltb_spec c 65536)]];
+  (destruct (Z.ltb_spec d 128); [|destruct (Z.ltb_spec d 2048); [|destruct (Z.ltb_spec d 65536)]]);
+  try lia; repeat cmp_step.
+Qed.
+
+Theorem lex_encode_scalars cs : forall ds,
+  Forall (fun c => scalar c = true) cs -> Forall (fun c => scalar c = true) ds ->
+  bytes_cmp (encode_scalars cs) (encode_scalars ds) = bytes_cmp cs ds.
+Proof.
+  induction cs as [|c cs IH]; intros [|d ds] Hcs Hds; unfold encode_scalars; cbn [map concat bytes_cmp].
+  - reflexivity.
+  - destruct (encode_scalar_nonempty d) as (b & r & ->). reflexivity.
+  - destruct (encode_scalar_nonempty c) as (b & r & ->). reflexivity.
+  - inversion Hcs as [|? ? Hc Hcs']; inversion Hds as [|? ? Hd Hds']; subst.
+    destruct (Z.compare_spec c d) as [->|Hlt|Hgt].
+    + rewrite bytes_cmp_app_same. now apply IH.
+    + now apply encode_scalar_lt.
+    + rewrite bytes_cmp_antisym, encode_scalar_lt by (auto; lia). reflexivity.
+Qed.
+
+(* stated on valid strings: decode both, compare the code point sequences *)
+Theorem cmp_code_points x y : valid x = true -> valid y = true ->
+  exists cs ds, Forall (fun c => scalar c = true) cs /\ Forall (fun c => scalar c = true) ds /\
+                x = encode_scalars cs /\ y = encode_scalars ds /\
+                cmp x y = bytes_cmp cs ds /\ str_cmp (deref x) (deref y) = bytes_cmp cs ds.
+Proof.
+  intros Hx Hy. apply valid_iff_scalars in Hx as (cs & Hcs & ->). apply valid_iff_scalars in Hy as (ds & Hds & ->).
+  exists cs, ds. unfold cmp, str_cmp, deref. rewrite lex_encode_scalars by assumption. auto 10.
+Qed.
+
+(* the decoding of a valid string is unique *)
+Corollary encode_scalars_inj cs ds :
+  Forall (fun c => scalar c = true) cs -> Forall (fun c => scalar c = true) ds ->
+  encode_scalars cs = encode_scalars ds -> cs = ds.
+Proof.
+  intros Hcs Hds E. apply bytes_cmp_eq. rewrite <- lex_encode_scalars by assumption.
+  now apply bytes_cmp_eq.
+Qed.
